@@ -23,6 +23,7 @@ func init() {
 		{"lookup-assign", 4, (*gen).opLookupAssign},
 		{"lookup-loop", 3, (*gen).opLookupLoop},
 		{"range-assign", 4, (*gen).opRangeAssign},
+		{"range-bin-array", 3, (*gen).opRangeBinArray},
 	}...)
 }
 
@@ -541,5 +542,42 @@ func (g *gen) opRangeAssign() bool {
 		}
 		g.w.line("fmt.Println()")
 	})
+	return true
+}
+
+// opRangeBinArray: range over an array whose type comes from a compiled
+// package (the result of sha256.Sum256 / md5.Sum), mutating not yet visited
+// elements in the body: the range expression is evaluated once, as a copy.
+func (g *gen) opRangeBinArray() bool {
+	g.needHash = true
+	h, s := g.fresh("h"), g.fresh("s")
+	n, fn := 32, "sha256.Sum256"
+	if g.chance(40) {
+		n, fn = 16, "md5.Sum"
+	}
+	seed := g.uni(200, "hseed")
+	g.w.line("%s := %s([]byte{%d, %d})", h, fn, seed, seed/3)
+	g.w.line("%s := 0", s)
+	switch g.uni(3, "binform") {
+	case 0:
+		g.w.line("for i, b := range %s {", h)
+		g.w.line("\t%s[(i+%d)%%%d] = byte(i)", h, 1+g.uni(5, "shift"), n)
+		g.w.line("\t%s += int(b) * (i + 1)", s)
+		g.w.line("}")
+	case 1:
+		c := g.fresh("c")
+		g.w.line("%s := %s", c, h)
+		g.w.line("for i := range %s {", c)
+		g.w.line("\t%s[i] = 0", h)
+		g.w.line("\t%s += int(%s[i]) * (i + 1)", s, c)
+		g.w.line("}")
+	default:
+		g.w.line("for i, b := range %s[:] {", h) // a slice of the array shares it
+		g.w.line("\t%s[(i+%d)%%%d] = byte(i)", h, 1+g.uni(5, "shift"), n)
+		g.w.line("\t%s += int(b) * (i + 1)", s)
+		g.w.line("}")
+	}
+	g.w.line("fmt.Println(\"binarray\", %s, %s[0], %s[%d])", s, h, h, n-1)
+	g.prog.Flagged[g.step] = "copy-mutate"
 	return true
 }
